@@ -105,8 +105,8 @@ LIST_AS_ARRAY = {"select", "select-only", "where-eq", "where-ne", "where-lt", "w
 def applicable(pos, kind, d, v=None):
     if pos in STR_ONLY:
         return kind == "str"
-    if pos in ("select", "select-only", "union-operand", "returning") and kind == "str":
-        return False  # a plain str passed to select()/returning() is a column name by API contract, not a value
+    if pos in ("select", "select-only", "union-operand", "returning") and (kind == "str" or isinstance(v, str)):
+        return False  # a str (also a str-mixin enum member) passed to select()/returning() is a column name by API contract, not a value
     if pos in INT_ONLY:
         return kind == "int" and v is not None and 0 <= v < 2**31
     if pos in JSON_ONLY:
